@@ -66,7 +66,8 @@ def plan(tier):
         specs = [(3, [("dense", 1, 3)], "all", KW_FULL, True),
                  (3, [("dense", 1, 2)], "some", KW_SOME[:2], False),
                  (4, [("dense", 1, 2)], "all", KW_SOME[:2], True),
-                 (4, [("bounded", 2, 3, 3)], "some", KW_SOME[:2], True)]
+                 (4, [("bounded", 2, 3, 3)], "some", KW_SOME[:2], True),
+                 (4, [("bounded", 1, 4, 4)], "some", KW_SOME[:2], True)]
     tasks, descs = [], []
     for N, regimes, sel, kws, distinct in specs:
         tasks += pairs.regime_tasks(N, regimes, ["py", "pyx"],
